@@ -31,7 +31,7 @@ func init() {
 		Run: run,
 		Floors: func(t string) map[string]int64 {
 			return map[string]int64{"cfg.entirely_inside": 100, "cfg.entirely_outside_bbox_overlap": 100, "cfg.entirely_outside_bbox_disjoint": 100, "cfg.crosses_hole": 100, "cfg.enters_several_times": 200, "cfg.two_vertex_line": 100,
-				"recv.MultiLineString": 300, "arg.*Bounds": 100, "arg.MultiPolygon": 300, "arg.Polygon": 300, "result.vertices_checked": 5000, "line.long": 100, "line.axis_parallel": 500, "line.all_vertices_in_one_hole": 300, "storage.paths_share_one_backing_array": 500}
+				"recv.MultiLineString": 300, "arg.*Bounds": 100, "arg.MultiPolygon": 300, "arg.Polygon": 300, "result.vertices_checked": 5000, "line.long": 100, "line.axis_parallel": 500, "line.all_vertices_in_one_hole": 300, "line.vertices_around_one_hole": 300, "storage.paths_share_one_backing_array": 500}
 		},
 	})
 }
@@ -157,16 +157,19 @@ func distToLines(p exact.P, lines [][]geom.Point) float64 {
 	return d
 }
 
-var polyKinds = []string{"star", "starholes", "starholes", "comb", "stair", "multi", "box"}
+var polyKinds = []string{"star", "starholes", "starholes", "comb", "stair", "multi", "box", "nested"}
 
 func run(c *core.Ctx, idx int) {
 	r := c.R
 	scale := math.Pow(10, r.Range(-2, 3))
 	ox, oy := r.Range(-5, 5)*scale, r.Range(-5, 5)*scale
-	cfgHint := r.Intn(7)
+	cfgHint := r.Intn(8)
 	kind := polyKinds[r.Intn(len(polyKinds))]
 	if cfgHint == 6 {
 		kind = "starholes" // every line vertex inside one (concave) hole, in different arms of it
+	}
+	if cfgHint == 7 {
+		kind = []string{"nested", "nested", "starholes"}[r.Intn(3)] // vertices in the material on different sides of a hole (and of the island in it)
 	}
 	op := c01.GenOperand(r, ox, oy, scale, kind, 40)
 	holeRing := map[int]bool{}
@@ -205,6 +208,30 @@ func run(c *core.Ctx, idx int) {
 		lines = append(lines, l)
 		nl = 0
 		c.Count("line.all_vertices_in_one_hole")
+	}
+	if cfgHint == 7 && len(op.Polys) >= 1 && len(op.Polys[0]) > 1 {
+		// vertices in the polygon material just outside one hole, on different sides of it: the
+		// segments between them cross the hole - and an island (another member) lying in it
+		hk := r.Intn(len(op.Polys[0]) - 1)
+		hole := gen.OpenRing(op.Polys[0][1+hk])
+		var hx, hy, hr float64
+		for _, p := range hole {
+			hx, hy = hx+p.X/float64(len(hole)), hy+p.Y/float64(len(hole))
+		}
+		for _, p := range hole {
+			hr = math.Max(hr, math.Hypot(p.X-hx, p.Y-hy))
+		}
+		nv := r.IntRange(2, 4)
+		th := r.Range(0, 2*math.Pi)
+		var l []geom.Point
+		for i := 0; i < nv; i++ {
+			rad := hr * r.Range(1.05, 1.35)
+			l = append(l, geom.Point{X: hx + rad*math.Cos(th), Y: hy + rad*math.Sin(th)})
+			th += r.Range(1.6, 3.4)
+		}
+		lines = append(lines, l)
+		nl = 0
+		c.Count("line.vertices_around_one_hole")
 	}
 	for k := 0; k < nl; k++ {
 		n := r.IntRange(2, 14)
@@ -329,12 +356,12 @@ func run(c *core.Ctx, idx int) {
 	if crossings >= 4 {
 		c.Count("cfg.enters_several_times")
 	}
-	if nl == 1 && len(lines[0]) == 2 {
+	if len(lines) == 1 && len(lines[0]) == 2 {
 		c.Count("cfg.two_vertex_line")
 	}
 	// presentations
 	var lin geom.Linear
-	if nl == 1 && r.Chance(0.8) {
+	if len(lines) == 1 && r.Chance(0.6) {
 		lin = geom.LineString(lines[0])
 		c.Count("recv.LineString")
 	} else {
